@@ -1,5 +1,7 @@
 """C07 on the real code: second-quantised block_diagonalize (operator-valued H_tilde, U) vs exact block diagonalisation of
 the matrices on a truncated Fock space (unnormalised basis, inverse-based gauge), compared away from the truncation edge."""
+import os, sys; sys.path.insert(0, os.path.dirname(os.path.abspath(__file__)))
+from common import case_rnd, skip
 import sys, os, json, random, itertools, warnings
 import numpy as np, sympy
 warnings.simplefilter("ignore")
@@ -55,6 +57,7 @@ def run(label, spec, H0f, Vf, maxn, cut):
 def main(seed, ncases, driver, out):
     failures = []; dist = {}; samples = []; evals = 0; distinct = 0; worst = 0.0
     for c in range(min(ncases, len(SYSTEMS))):
+        if skip(c): continue
         label, spec, H0f, Vf = SYSTEMS[c]; dist[label] = 1; samples.append({"system": label, "modes": spec})
         try:
             for (n, eh, eu, nlow) in run(label, spec, H0f, Vf, 3, 8):
